@@ -49,8 +49,9 @@ def build_tokamak(cfg):
     r1d = np.linspace(1.0, 2.0, n)
     z1d = np.linspace(-0.7, 0.7, nz)
     r2d, z2d = np.meshgrid(r1d, z1d, indexing="ij")
-    psi2d = analytic.psi(fam, r2d, z2d, sign, scale)
-    psi1d = analytic.psi(fam, np.linspace(analytic.R0, 1.2 * analytic.R0, n), 0.0, sign, scale)
+    off = cfg.get("psi_offset", 0.0)
+    psi2d = analytic.psi(fam, r2d, z2d, sign, scale) + off
+    psi1d = analytic.psi(fam, np.linspace(analytic.R0, 1.2 * analytic.R0, n), 0.0, sign, scale) + off
     fk = cfg.get("fpol", "linear")
     if fk == "none":
         fpol1d = []
